@@ -50,8 +50,11 @@ def nestings(draw):
     tp = "[T]" if generic else ""
     # every nested name is defined twice in its scope (typing.overload stubs followed by the implementation; a conditional
     # redefinition): calling / looking up the name gives the LAST definition, which is the code that runs
-    redefined = draw(st.sampled_from([False, False, True]))
-    lines = ["def top():"]
+    # ("finally": the earlier definition sits in a try body after an early return, the real one in the finally clause - the
+    # compiler emits the finally body first, at the return, so that source order and order of compilation differ)
+    redefined = draw(st.sampled_from([False, False, False, "twice", "twice", "finally"]))
+    wrapped = []
+    lines = ["NEVER = False", "def top():"]
     ind = 1
     getter = "top()"
     prev = "def"
@@ -63,11 +66,20 @@ def nestings(draw):
             # siblings whose names merely resemble the wanted one (longer / shorter), defined first
             lines.append("    " * ind + "def %sx(): return %d" % (n, i))
             lines.append("    " * ind + "def %s(): return %d" % (n[:-1], i))
+        in_function = i == 0 or kinds[i - 1] == "def"
+        wrap = redefined == "finally" and in_function
+        wrapped.append(wrap)
+        if wrap:
+            lines.append("    " * ind + "try:")
+            lines.append("    " * (ind + 1) + "if NEVER: return None")
+            ind += 1
         if redefined:
             if k == "def":
                 lines.append("    " * ind + "def %s%s(*a): return 'stub %d'" % (n, tp, i))
             else:
                 lines.append("    " * ind + "class %s%s: stub = %d" % (n, tp, i))
+        if wrap:
+            lines.append("    " * (ind - 1) + "finally:")
         if k == "def":
             lines.append("    " * ind + "def %s%s(*a):" % (n, tp))
         else:
@@ -76,7 +88,7 @@ def nestings(draw):
     lines.append("    " * ind + "return 'leaf'")
     # returns, innermost to outermost
     for i in range(depth - 1, -1, -1):
-        ind -= 1
+        ind -= 2 if wrapped[i] else 1
         if i == 0 or kinds[i - 1] == "def":
             if captured:
                 lines.append("    " * ind + "def user_%d(): return %s" % (i, names[i]))
@@ -95,7 +107,7 @@ def nestings(draw):
             expr = "%s()" % expr          # call the function -> returns names[i]
         else:
             expr = "%s.%s" % (expr, names[i])   # class attribute
-    return {"src": "\n".join(lines) + "\n", "path": names, "getter": expr, "kinds": kinds + (["captured_by_sibling"] if captured else []) + (["pep695_generic"] if generic else []) + (["name_defined_twice"] if redefined else [])}
+    return {"src": "\n".join(lines) + "\n", "path": names, "getter": expr, "kinds": kinds + (["captured_by_sibling"] if captured else []) + (["pep695_generic"] if generic else []) + (["name_defined_twice"] if redefined else []) + (["redefined_in_finally_after_early_return"] if redefined == "finally" else [])}
 
 
 def registry_ops():
